@@ -126,9 +126,10 @@ func main() {
 	in.Buffer(make([]byte, 1<<20), 1<<26)
 	out := bufio.NewWriter(os.Stdout)
 	defer out.Flush()
-	// Lua's io.stdout/io.stdin must not touch the protocol streams
+	// Lua's io.stdout/io.stdin (the process's real files) must not touch the protocol streams
 	if null, err := os.OpenFile("/dev/null", os.O_RDWR, 0); err == nil {
 		os.Stdin = null
+		os.Stdout = null
 	}
 	for in.Scan() {
 		f := strings.Fields(in.Text())
